@@ -32,12 +32,41 @@ func init() {
 	})
 }
 
+// escapeForParse percent-encodes the characters that may not stand in a URL as they are
+// (blank, non-ASCII, quotes ...), so that net/url keeps the escapes the page wrote
+// (otherwise it re-encodes the whole path from its decoded form and %2F becomes /).
+func escapeForParse(s string) string {
+	var sb strings.Builder
+	for i := 0; i < len(s); i++ {
+		if c := s[i]; c <= ' ' || c >= 0x7f || strings.IndexByte("\"<>^`{|}", c) >= 0 {
+			fmt.Fprintf(&sb, "%%%02X", c)
+		} else {
+			sb.WriteByte(c)
+		}
+	}
+	return sb.String()
+}
+
+// asciiEqualFold: host names are case-insensitive in their ASCII letters only.
+func asciiEqualFold(a, b string) bool {
+	low := func(s string) string {
+		x := []byte(s)
+		for i, c := range x {
+			if c >= 'A' && c <= 'Z' {
+				x[i] = c + 32
+			}
+		}
+		return string(x)
+	}
+	return low(a) == low(b)
+}
+
 func anchorSet(docSrc string, page *nurl.URL) map[string]bool {
 	set := map[string]bool{}
 	doc := parseHTML(docSrc)
 	for _, a := range dom.GetElementsByTagName(doc, "a") {
 		h := strings.Trim(dom.GetAttribute(a, "href"), " \t\n\f\r") // as HTML does for URL attributes
-		ref, err := nurl.Parse(h)
+		ref, err := nurl.Parse(escapeForParse(h))
 		if err != nil {
 			continue
 		}
@@ -61,9 +90,9 @@ func (c *Ctx) checkPaginationLink(which, v string, algo distiller.PaginationAlgo
 		kind = "white-space-in-url"
 	case pv.Scheme != "http" && pv.Scheme != "https":
 		kind = "scheme:" + pv.Scheme
-	case pv.Host == "":
-		kind = "empty-host"
-	case !strings.EqualFold(pv.Host, page.Host):
+	case pv.Hostname() == "":
+		kind = "empty-host" // also "http://:80/..." (a port without a host name)
+	case !asciiEqualFold(pv.Host, page.Host):
 		kind = "off-site"
 	case !anchors[canonURL(pv)]:
 		kind = "not-an-anchor-target"
